@@ -31,7 +31,7 @@ def obligations(tier, seed=0):
         if thorough:
             kw['_t'] = 600
         obs.append((FS + 'from_str_num', kw))
-    for mbits, E, prec in [(8, 0, 4), (8, 3, 4), (8, -2, 4), (20, -3, 4), (30, -4, 4), (1, -1, 3), (3, -1, 8), (12, 2, 3), (40, -2, 12), (24, -6, 6), (5, 6, 10), (34, -3, 3)]:
+    for mbits, E, prec in [(8, 0, 4), (8, 3, 4), (8, -2, 4), (20, -3, 4), (30, -4, 4), (1, -1, 3), (3, -1, 8), (12, 2, 3), (32, -2, 10), (24, -6, 6), (5, 6, 10), (34, -3, 3)]:
         for rnd in RNDS:
             for mneg in (0, 1):
                 add(mbits=mbits, E=E, prec=prec, rnd=rnd, mneg=mneg)
@@ -40,7 +40,7 @@ def obligations(tier, seed=0):
             for mneg in (0, 1):
                 add(mbits=mbits, E=E, prec=prec, rnd=rnd, mneg=mneg, limit=5)
     if thorough:
-        for mbits, E, prec in [(60, -10, 24), (53, 15, 24), (100, -20, 53), (64, -5, 53)]:
+        for mbits, E, prec in [(40, -2, 12), (60, -10, 24), (53, 15, 24), (100, -20, 53), (64, -5, 53)]:
             for rnd in RNDS:
                 add(mbits=mbits, E=E, prec=prec, rnd=rnd, mneg=0)
     return obs
